@@ -160,6 +160,11 @@ pub fn run(ctx: &'static Ctx) {
         }
         ctx.engine("E3.eisa-lowercase-digits", json!({"ids": lc, "oracle": "refused, or the same identifier case-insensitively"}));
     }
+    // seven BYTES but fewer than seven characters (a multi-byte character among the letters), and seven characters
+    // but more than seven bytes: the identifier has seven characters, each one byte
+    for s in ["\u{c4}B0501", "P\u{d6}0501", "\u{df}P0A03", "\u{20ac}0501", "PN\u{e9}A03", "\u{e9}\u{e9}A03x", "PNP0A0\u{e9}", "PNP\u{e9}A03", "\u{1f600}501", "PNP0\u{20ac}"] {
+        bad_ids.push(s.to_string());
+    }
     for s in &bad_ids {
         bad += 1;
         ctx.tr(1);
